@@ -68,7 +68,7 @@ PEAK_COUNTERS = ("peak_finish_rounds", "peak_payload_bytes")
 ROLES = ["Client", "ClientTls", "Remoter", "RemoterTls"]
 STALL = 60          # consecutive rounds in which nothing at all moved => the connection is not making progress
 CONNECT_ROUNDS = 400
-NCASES = {"quick": 1600, "thorough": 20000}
+NCASES = {"quick": 1200, "thorough": 20000}
 
 
 # --------------------------------------------------------------------------
